@@ -140,6 +140,21 @@ func main() {
 			if pkg == "main" {
 				dst = filepath.Join(*repo, "zz_verif_"+filepath.Base(f))
 			}
+			// accessors name a few package-level variables by role (VERIF_VAR_cache ...): the
+			// actual identifier is looked up in the package, so that renaming it does not
+			// stop the checks from binding
+			if text, err := os.ReadFile(f); err == nil && strings.Contains(string(text), "VERIF_VAR_") {
+				out2 := string(text)
+				for role, name := range roleVars(pkg) {
+					out2 = strings.ReplaceAll(out2, "VERIF_VAR_"+role, name)
+				}
+				gen := filepath.Join(*out, "accessors", pkg, filepath.Base(f))
+				os.MkdirAll(filepath.Dir(gen), 0o755)
+				if err := os.WriteFile(gen, []byte(out2), 0o644); err != nil {
+					die("%v", err)
+				}
+				f = gen
+			}
 			replace[dst] = f
 			rep.Added = append(rep.Added, filepath.Join(pkg, "zz_verif_"+filepath.Base(f)))
 		}
@@ -1058,4 +1073,84 @@ func rewriteChannelOps(pkg, path string, src []byte) ([]byte, int) {
 		src = out
 	}
 	return src, total
+}
+
+// ---------------------------------------------------------------- variables by role
+
+// roleVars finds package-level variables by what they are rather than by their name:
+// "group" (a singleflight.Group), "cache" (initialised by a call into the lru package),
+// "dialer" (a net.Dialer). The conventional names are the fallback.
+func roleVars(pkg string) map[string]string {
+	roles := map[string]string{"group": "group", "cache": "cache", "dialer": "dialer"}
+	files, _ := filepath.Glob(filepath.Join(*repo, pkg, "*.go"))
+	isSel := func(e ast.Expr, x, sel string) bool {
+		if st, ok := e.(*ast.StarExpr); ok {
+			e = st.X
+		}
+		s, ok := e.(*ast.SelectorExpr)
+		if !ok {
+			return false
+		}
+		id, ok := s.X.(*ast.Ident)
+		return ok && id.Name == x && (sel == "" || s.Sel.Name == sel)
+	}
+	var mentionsPkg func(e ast.Expr, x string) bool
+	mentionsPkg = func(e ast.Expr, x string) bool {
+		found := false
+		ast.Inspect(e, func(n ast.Node) bool {
+			if s, ok := n.(*ast.SelectorExpr); ok {
+				if id, ok := s.X.(*ast.Ident); ok && id.Name == x {
+					found = true
+				}
+			}
+			return !found
+		})
+		return found
+	}
+	for _, f := range files {
+		if strings.HasSuffix(f, "_test.go") {
+			continue
+		}
+		file, err := parser.ParseFile(token.NewFileSet(), f, nil, 0)
+		if err != nil {
+			continue
+		}
+		for _, d := range file.Decls {
+			gd, ok := d.(*ast.GenDecl)
+			if !ok || gd.Tok != token.VAR {
+				continue
+			}
+			for _, sp := range gd.Specs {
+				vs := sp.(*ast.ValueSpec)
+				if len(vs.Names) == 0 {
+					continue
+				}
+				name := vs.Names[0].Name
+				var val ast.Expr
+				if len(vs.Values) > 0 {
+					val = vs.Values[0]
+				}
+				lit := func(e ast.Expr) ast.Expr { // &T{...} or T{...} -> T
+					if u, ok := e.(*ast.UnaryExpr); ok && u.Op == token.AND {
+						e = u.X
+					}
+					if c, ok := e.(*ast.CompositeLit); ok {
+						return c.Type
+					}
+					return nil
+				}
+				switch {
+				case vs.Type != nil && isSel(vs.Type, "singleflight", "Group"), val != nil && lit(val) != nil && isSel(lit(val), "singleflight", "Group"):
+					roles["group"] = name
+				case vs.Type != nil && isSel(vs.Type, "net", "Dialer"), val != nil && lit(val) != nil && isSel(lit(val), "net", "Dialer"):
+					roles["dialer"] = name
+				case val != nil:
+					if c, ok := val.(*ast.CallExpr); ok && mentionsPkg(c.Fun, "lru") {
+						roles["cache"] = name
+					}
+				}
+			}
+		}
+	}
+	return roles
 }
